@@ -67,26 +67,28 @@ def kwToks (k : KwKind) (n : Bool) : List Tok :=
   | .regexp => if n then [opTok "NOT", opTok "REGEXP"] else [opTok "REGEXP"]
 
 /-! ### the token-level printer -/
-/-- `PR.wrap` on tokens: the SAME decision `PR.lvl e > maxLevel` -/
-def wrapT (e : Expr) (maxLevel : Nat) (ts : List Tok) : List Tok := if PR.lvl e > maxLevel then [grp ts] else ts
+/-- `PR.wrap` on tokens: the SAME decision `PR.lvl e > maxLevel`; `extra`: a REDUNDANT bracket is put around the child anyway -/
+def wrapT (extra : Bool) (e : Expr) (maxLevel : Nat) (ts : List Tok) : List Tok :=
+  if PR.lvl e > maxLevel ∨ extra = true then [grp ts] else ts
 
-def toksE (d : Gen.D) : Expr → List Tok
+/-- `ch` chooses the sub-terms that get a redundant bracket (the printer: `fun _ => false`) -/
+def toksE (d : Gen.D) (ch : Expr → Bool) : Expr → List Tok
   | .column _ c => [nameTok c]
   | .literal v => [litTok v]
-  | .unary o e => opTok (cval o) :: wrapT e 2 (toksE d e)
+  | .unary o e => opTok (cval o) :: wrapT (ch e) e 2 (toksE d ch e)
   | .compute l o r =>
-      wrapT l (PR.lvl (.compute l o r)) (toksE d l) ++ opTok (cval o) :: wrapT r (PR.lvl (.compute l o r) - 1) (toksE d r)
-  | .kw k n l r => wrapT l 9 (toksE d l) ++ (kwToks k n ++ wrapT r 8 (toksE d r))
+      wrapT (ch l) l (PR.lvl (.compute l o r)) (toksE d ch l) ++ opTok (cval o) :: wrapT (ch r) r (PR.lvl (.compute l o r) - 1) (toksE d ch r)
+  | .kw k n l r => wrapT (ch l) l 9 (toksE d ch l) ++ (kwToks k n ++ wrapT (ch r) r 8 (toksE d ch r))
   | .between n b f t =>
-      wrapT b 9 (toksE d b) ++ ((if n then [opTok "NOT"] else []) ++ opTok "BETWEEN" :: (wrapT f 8 (toksE d f) ++ opTok "AND" :: wrapT t 8 (toksE d t)))
-  | .compare o l r => wrapT l 10 (toksE d l) ++ opTok (cmpVal o) :: wrapT r 9 (toksE d r)
-  | .not_ e => opTok "NOT" :: wrapT e 11 (toksE d e)
-  | .and_ l r => wrapT l 12 (toksE d l) ++ opTok "AND" :: wrapT r 11 (toksE d r)
-  | .xor l r => wrapT l 13 (toksE d l) ++ opTok "XOR" :: wrapT r 12 (toksE d r)
-  | .or_ l r => wrapT l 14 (toksE d l) ++ opTok "OR" :: wrapT r 13 (toksE d r)
+      wrapT (ch b) b 9 (toksE d ch b) ++ ((if n then [opTok "NOT"] else []) ++ opTok "BETWEEN" :: (wrapT (ch f) f 8 (toksE d ch f) ++ opTok "AND" :: wrapT (ch t) t 8 (toksE d ch t)))
+  | .compare o l r => wrapT (ch l) l 10 (toksE d ch l) ++ opTok (cmpVal o) :: wrapT (ch r) r 9 (toksE d ch r)
+  | .not_ e => opTok "NOT" :: wrapT (ch e) e 11 (toksE d ch e)
+  | .and_ l r => wrapT (ch l) l 12 (toksE d ch l) ++ opTok "AND" :: wrapT (ch r) r 11 (toksE d ch r)
+  | .xor l r => wrapT (ch l) l 13 (toksE d ch l) ++ opTok "XOR" :: wrapT (ch r) r 12 (toksE d ch r)
+  | .or_ l r => wrapT (ch l) l 14 (toksE d ch l) ++ opTok "OR" :: wrapT (ch r) r 13 (toksE d ch r)
   | _ => []
 /-- the rendering of `e` at a position with bound `k` -/
-def W (d : Gen.D) (e : Expr) (k : Nat) : List Tok := wrapT e k (toksE d e)
+def W (d : Gen.D) (ch : Expr → Bool) (e : Expr) (k : Nat) : List Tok := wrapT (ch e) e k (toksE d ch e)
 
 /-! ### what does not continue an expression -/
 def stopsE (t : Tok) : Bool := !t.has PAREN && !t.has ARRAY && !t.srcEq "."
@@ -221,10 +223,9 @@ theorem sizeL_cons (t : Tok) (a : List Tok) : sizeL (t :: a) = t.size + sizeL a 
 theorem size_single (s : List Char) (m : Nat) : (Tok.single s m).size = 1 := by simp [Tok.size]
 theorem size_opTok (s : String) : (opTok s).size = 1 := size_single _ _
 theorem size_grp (cs : List Tok) : (grp cs).size = 1 + sizeL cs := by simp [grp, Tok.size]
-theorem sizeL_W_le (d : Gen.D) (e : Expr) (k : Nat) : sizeL (toksE d e) ≤ sizeL (W d e k) := by
+theorem sizeL_W_le (d : Gen.D) (ch : Expr → Bool) (e : Expr) (k : Nat) : sizeL (toksE d ch e) ≤ sizeL (W d ch e k) := by
   unfold W wrapT; split <;> simp [sizeL, size_grp]
-theorem sizeL_W (d : Gen.D) (e : Expr) (k : Nat) :
-    sizeL (W d e k) = if PR.lvl e > k then 1 + sizeL (toksE d e) else sizeL (toksE d e) := by
+theorem sizeL_W_ge (d : Gen.D) (ch : Expr → Bool) (e : Expr) (k : Nat) : sizeL (W d ch e k) ≤ 1 + sizeL (toksE d ch e) := by
   unfold W wrapT; split <;> simp [sizeL, size_grp]
 
 end TP
